@@ -42,13 +42,13 @@ package ext
 //@ func tryReadTrailer(t, r, n) err
 //@   props C03
 //@   requires r != nil && t != nil
-//@   modifies t._all, alltype(protocol.argsKV), r.pos, r.avail, r.failed, mem, parseArr
+//@   modifies t._all, alltype(protocol.argsKV), r.pos, r.avail, r.failed, mem, parseArr, hdrComplete
 //@   allocates
 
 //@ func ReadTrailer(t, r) err
 //@   props C03
 //@   requires r != nil && t != nil
-//@   modifies t._all, alltype(protocol.argsKV), r.pos, r.avail, r.failed, mem, parseArr
+//@   modifies t._all, alltype(protocol.argsKV), r.pos, r.avail, r.failed, mem, parseArr, hdrComplete
 //@   allocates
 
 //@ func trySkipTrailer(r, n) err
@@ -249,10 +249,24 @@ package ext
 //@ func HasHeaderValue(s, value) r
 //@   props C03
 
+// C02: the scanner edits folded values in place, so it may only run once the block is known to be complete
+// (a retry after ErrNeedMore would otherwise read edited bytes). hdrComplete: the last completeness check of
+// this parse succeeded.
+//@ ghost var hdrComplete bool
+//@ func HeadersComplete(buf) r
+//@   props C02, C03
+//@   loop 0:
+//@     invariant true
+
 //@ func parseTrailer(t, buf) n, err
-//@   props C03
+//@   props C03, C02
+//@   ghostset-at-entry hdrComplete = false
+//@   ghostset after HeadersComplete#0: hdrComplete = result
+//@   assert @C02 before Next: hdrComplete
+//@   replay-go buf := []byte("A: b\r\n c\r\nB: d\r\n\r\n"); var t1 protocol.Trailer; if _, err := parseTrailer(&t1, append([]byte(nil), buf...)); err != nil { fmt.Println("VCGO-NOTE whole block:", err); return }; want := string(t1.Peek("A")); cut := len("A: b\r\n c\r\n"); var t2 protocol.Trailer; parseTrailer(&t2, buf[:cut]); t2.ResetSkipNormalize(); parseTrailer(&t2, buf); if got := string(t2.Peek("A")); got != want { fmt.Printf("VCGO-VIOLATED trailer A is %q when the block arrives whole and %q when the first attempt saw only the folded line\n", want, got) }
+//@   replay-import github.com/cloudwego/hertz/pkg/protocol
 //@   requires len(buf) > 0 && t != nil
-//@   modifies t._all, alltype(protocol.argsKV), mem, parseArr
+//@   modifies t._all, alltype(protocol.argsKV), mem, parseArr, hdrComplete
 //@   ghostset-at-entry parseArr = arr(buf)
 //@   allocates
 //@   ensures err == nil ==> 0 <= n && n <= len(buf)
